@@ -99,9 +99,23 @@ def fresh_pool():
         __namespace__ = 'tns'
         t = Unicode(max_len=4)
 
+    class Mx(ComplexModel):           # a reusable group of fields
+        __namespace__ = 'tns'
+        __mixin__ = True
+        m1 = Integer
+        m2 = Unicode
+        m3 = Integer
+
+    class X(Mx):
+        __namespace__ = 'tns'
+        x1 = Unicode
+
     pool = {'P': Integer32(ge=0, min_occurs=1), 'U': Unicode(max_len=8), 'C': C, 'O': O, 'S': S, 'A': Array(C),
-            'V': C.customize(nillable=False)}
+            'V': C.customize(nillable=False), 'X': X}
     return pool
+
+
+MIXIN_ORDER = ['m1', 'm2', 'm3', 'x1']        # mixin fields first, in declaration order, then the class's own
 
 
 def pick(sx, name, options, preset):
@@ -162,6 +176,8 @@ def apply_op(sx, pool, i, kind, preset=None):
         t = pick(sx, 't%d' % i, [n for n in names if issubclass(pool[n], ComplexModel.__mro__[1]) and not issubclass(pool[n], Array)], preset)
         label, kw = cplx_kwargs(sx, i, preset)
         new = pool[t].customize(**kw)
+        if t == 'X' and not any(k.startswith('child_attrs') for k in kw):
+            pass
         pend = dict((f, dict(a)) for f, a in PENDING.get(id(pool[t]), {}).items())
         for f, a in kw.get('child_attrs', {}).items():
             if f not in new.get_flat_type_info(new):
@@ -257,7 +273,7 @@ def _run_history(sx, kinds, preset=None):
     pool = fresh_pool()
     probes = {'int': sx.int('probe', -5, 200), 'str': sx.text('probe_s', sx.choose('probe_len', [3] if sx.tier == 'quick' else [0, 3, 9]), alphabet='ab')}
     snaps = {n: snap(sx, m, probes) for n, m in pool.items()}
-    ok = []
+    ok = [list(pool['X'].get_flat_type_info(pool['X']).keys()) == MIXIN_ORDER]
     desc = []
     for i, kind in enumerate(kinds):
         d, changed, new, chk = apply_op(sx, pool, i, kind, preset if i == 0 else None)
@@ -304,7 +320,7 @@ H3 = [('cust', 'cust', 'append'), ('cust', 'cust', 'insert'), ('prim', 'prim', '
 def _shards(triples):
     out = []
     for t in triples:
-        nt = 7 if t[0] in ('array', 'mandatory') else 5 if t[0] == 'cust' else 3 if t[0] == 'subclass' else 2 if t[0] == 'prim' else 1
+        nt = 8 if t[0] in ('array', 'mandatory') else 6 if t[0] == 'cust' else 4 if t[0] == 'subclass' else 2 if t[0] == 'prim' else 1
         nk = 7 if t[0] == 'cust' else 8 if t[0] == 'prim' else 1
         out += [(t, j, k) for j in range(nt) for k in range(nk)]
     return out
